@@ -271,6 +271,12 @@ def run_cli(spec, ctx, rng, u, reg):
         for c in cuts:
             with open(os.path.join(pdir, "cut%04d.pel" % c), "wb") as f:
                 f.write(data[:c])
+        # ... behind ONE well-formed PEL (another log) that sorts first: it is shown, they are not
+        ngood = k % 2
+        if ngood:
+            other = small_pel(rng, u, reg)
+            with open(os.path.join(pdir, "a_good_first.pel"), "wb") as f:
+                f.write(other.encode())
         for argv in (["-a"], ["-a", "-x"], ["--all-pels", "--hex", "-r"], ["-j", "-o", odir]):
             ctx.current = {"argv": argv + ["-E"], "seed_pel": data, "cuts": cuts, "python_O": opt}
             ctx.case(repr(argv) + data.hex(), True)
@@ -290,9 +296,10 @@ def run_cli(spec, ctx, rng, u, reg):
                     shown = -1
             if p.returncode not in (0, 1) or "Traceback (most recent call last)" in err:
                 ctx.violation("C05/cli-traceback", "peltool %s on truncated PELs: rc=%d %r" % (" ".join(argv), p.returncode, err[-400:]))
-            elif shown != 0:
-                ctx.violation("C05/prefix-decoded", "peltool%s %s displayed / exported %s of %d proper prefixes of a well-formed "
-                              "%d-byte PEL as PELs" % (" (python -O)" if opt else "", " ".join(argv), shown, len(cuts), len(data)))
+            elif shown != ngood:
+                ctx.violation("C05/prefix-decoded", "peltool%s %s displayed / exported %s PELs for a directory of %d well-formed PEL(s) "
+                              "and %d proper prefixes of a well-formed %d-byte PEL" %
+                              (" (python -O)" if opt else "", " ".join(argv), shown, ngood, len(cuts), len(data)))
         shutil.rmtree(pdir, ignore_errors=True)
         shutil.rmtree(odir, ignore_errors=True)
     for tag, d, prefix_of in cases[:spec["n"]]:
